@@ -2,7 +2,7 @@
 Lean: ScrapliModel/Lock.lean, ScrapliProps/C19.lean.  Real code: the real Channel / AsyncChannel of an IOSXEDriver /
 AsyncIOSXEDriver over SchedTransport, several callers (threads / asyncio tasks) on ONE connection, driven by the
 deterministic scheduler of tools/harness/sched.py; the same schedule is given to the Lean model."""
-import asyncio, itertools, json, threading, time
+import asyncio, itertools, json, os, subprocess, sys, threading, time
 
 from vlib.common import VERIF, Check, hexs, run_model, unhex
 import translate
@@ -468,6 +468,120 @@ def timeout_scenario():
     return {"first_op": first, "seconds": round(dt, 2), "lock_held_after_timeout": locked, "transport_alive": t.isalive(), "next_op": second}
 
 
+# ---------------------------------------------------------------- timed family: operations that END BY TIMEOUT
+TIMED_HARD_LIMIT = 60          # a scenario process that is still there after this is killed (rig trouble, exit 2)
+TIMED_SLACK = 8.0              # a caller still blocked timeout_ops + slack after the silent operation started counts as hung
+
+
+def timed_scenarios(tier, rng):
+    base = [
+        {"tname": "SimTransport", "hung": ["si", "output"], "queued": [["gp"], ["si"]]},
+        {"tname": "SystemTransport", "hung": ["gp", "output"], "queued": [["si"]], "queued_first": False},
+        {"tname": "SimTransport", "hung": ["si", "echo"], "queued": [["si"], ["gp"]], "queued_first": True},
+        {"tname": "SimTransport", "hung": ["int", "output"], "queued": [["sir"], ["gp"]]},
+        {"tname": "TelnetTransport", "hung": ["sir", "output"], "queued": [["gp"]]},
+    ]
+    if tier == "thorough":
+        for hk, when in itertools.product(("si", "sir", "gp", "int"), ("echo", "output")):
+            for tn in ("SimTransport", "SystemTransport"):
+                q = [[rng.choice(("gp", "si", "sir", "int"))] for _ in range(rng.randint(1, 3))]
+                base.append({"tname": tn, "hung": [hk, when], "queued": q, "queued_first": rng.random() < 0.3})
+    for sc in base:
+        sc.setdefault("queued_first", False)
+        sc["timeout_ops"] = 0.3
+        sc["slack"] = TIMED_SLACK
+    return base
+
+
+def run_timed(scenarios):
+    """every scenario in its own killable process, all at once; -> list of result dicts (or {"killed": True})"""
+    script = str(VERIF / "tools" / "harness" / "c19_timed.py")
+    procs = [subprocess.Popen([sys.executable, script, json.dumps(sc)], stdout=subprocess.PIPE, stderr=subprocess.PIPE, text=True,
+                              env=dict(os.environ)) for sc in scenarios]
+    out = []
+    t_end = time.time() + TIMED_HARD_LIMIT
+    for sc, p in zip(scenarios, procs):
+        try:
+            so, se = p.communicate(timeout=max(1.0, t_end - time.time()))
+        except subprocess.TimeoutExpired:
+            p.kill()
+            p.communicate()
+            raise HarnessError(f"timed scenario process had to be killed after {TIMED_HARD_LIMIT}s (its main thread never blocks on scrapli): {sc}")
+        try:
+            out.append(json.loads(so.strip().splitlines()[-1]))
+        except Exception:
+            raise HarnessError(f"timed scenario process gave no result (rc={p.returncode}): {sc}\n{se[-1500:]}")
+    return out
+
+
+def timed_expected(spec):
+    e = expected(spec)
+    return e if isinstance(e, str) else [x.decode("latin1") for x in e]
+
+
+def timed_oracle(sc, r):
+    """violated clauses of C19 for one timed scenario (real threads, real lock, real timeout decorator)"""
+    bad = []
+    lim = sc["timeout_ops"] + sc["slack"]
+    h = r["hung"]
+    if h["alive"]:
+        bad.append(f"the operation that met a silent device is still blocked {lim}s after it started (timeout_ops={sc['timeout_ops']}): it never timed out")
+    elif h["outcome"][:2] != ["exc", "ScrapliTimeout"]:
+        bad.append(f"the operation that met a silent device ended with {h['outcome']} instead of ScrapliTimeout")
+    for q in r["queued"]:
+        if q["alive"]:
+            bad.append(f"caller {q['name']} {q['spec']}, queued on the channel lock behind the timed-out operation, is still blocked after {lim}s")
+        elif q["outcome"][0] == "ok":
+            if q["outcome"][1] != timed_expected(q["spec"]):
+                bad.append(f"caller {q['name']} {q['spec']} got {q['outcome'][1]!r}, not the output of its own command")
+        elif not q["outcome"][2]:
+            bad.append(f"caller {q['name']} ended with a non-scrapli error {q['outcome']}")
+    if r["lock_locked_after"]:
+        bad.append("the channel lock is still held after the operation timed out")
+    p2 = r.get("phase2")
+    if p2 is not None:
+        for q in p2["callers"]:
+            if q["alive"]:
+                bad.append(f"after re-opening: caller {q['name']} is blocked")
+            elif q["outcome"][0] != "ok" or q["outcome"][1] != timed_expected(q["spec"]):
+                bad.append(f"after re-opening: caller {q['name']} {q['spec']} got {q['outcome']!r}")
+        if p2["lock_locked"]:
+            bad.append("after re-opening: channel lock held at the end")
+        if p2["owner_blocks"] != p2["owners"]:
+            bad.append("after re-opening: transport calls of the two operations interleave")
+    return bad
+
+
+def timed_family(ck, tier, closes_before_join):
+    """runs the scenarios, oracle + comparison with the Lean protocol model (PoolTimeout); returns nothing"""
+    scs = timed_scenarios(tier, ck.rng)
+    results = run_timed(scs)
+    mout = None
+    if closes_before_join is not None:
+        try:
+            # the sim transport's close() wakes a blocked read: closeWakes = 1; fair schedule: timeout, then (caller, worker) x 3
+            mout = run_model("C19", [f"T {1 if closes_before_join else 0} 1 ccwcwcw"] * len(scs))
+        except Exception as e:  # noqa: BLE001
+            ck.proof_broken("model driver Drv/C19.lean (T)", repr(e))
+    for i, (sc, r) in enumerate(zip(scs, results)):
+        if not r.get("lock_held_while_hung"):
+            raise HarnessError(f"timed scenario did not get the silent operation blocked inside the lock context: {sc} {r}")
+        ck.case(("timed", json.dumps(sc, sort_keys=True)), nontrivial=True, sample={"timed": sc, "hung": r["hung"]},
+                tags=("timed", "threads", f"transport={sc['tname']}", f"hung={sc['hung'][0]}/{sc['hung'][1]}", f"queued={len(sc['queued'])}"))
+        for what in timed_oracle(sc, r)[:1]:
+            ck.violation({"timed": sc, "observed": r}, what, matcher)
+        if mout is not None:
+            pc, lk, _cl = mout[i].split(" ")
+            real = ("raised" if (not r["hung"]["alive"] and r["hung"]["outcome"][:2] == ["exc", "ScrapliTimeout"]) else "blocked",
+                    "1" if r["lock_locked_after"] else "0")
+            model = ("raised" if pc == "raised" else "blocked", lk)
+            if real != model:
+                ck.disagree("PoolTimeout model vs thread-pool timeout", {"timed": sc}, f"impl={real} model={model} (closeBeforeJoin={closes_before_join})")
+            else:
+                ck.traces_validated += 1
+    ck.extra["timed_scenarios"] = len(scs)
+
+
 def run(tier, seed):
     ck = Check(PID, tier, seed, level="proof")
     ck.rule = ("cases = (stack sync|asyncio) x 2-4 callers x programs of 1-3 operations from {get_prompt, send_input, send_input_and_read, "
@@ -478,7 +592,12 @@ def run(tier, seed):
                "followed by totalSteps fair round-robin rounds (the bound of theorem `progress`). Each case runs the real Channel/AsyncChannel "
                "under the deterministic scheduler and the Lean model under the SAME schedule. Non-trivial = some caller was refused the lock "
                "while another held it; distinct by (stack, programs, schedule, fault, read size). Oracle = contiguity of every operation's "
-               "transport calls, own output per caller, completion after a fault, equality with the one-at-a-time run in the same order.")
+               "transport calls, own output per caller, completion after a fault, equality with the one-at-a-time run in the same order. "
+               "Timed family (real threads, real threading.Lock, real timeout decorator, timeout_ops=0.3, blocking sim transport, each scenario in "
+               "its own killable process): one operation meets a device that goes silent (before the echo / after the return; get_prompt, "
+               "send_input, send_input_and_read, interact) while 1-3 callers are queued on the lock; oracle: it ends by ScrapliTimeout, nobody is "
+               "still blocked timeout_ops+8s later, lock free, queued callers end with their own result or a scrapli error, the re-opened "
+               "connection serves two fresh callers; compared with the Lean PoolTimeout protocol model fed with the generated close/join order.")
     ck.trusted = ["Lean 4.33.0 kernel; axioms of every theorem audited ⊆ {propext, Classical.choice, Quot.sound}",
                   "tools/gen/c19.py (AST walk: which transport-reaching calls are inside `with self._channel_lock()`; shape of _channel_lock)",
                   "tools/harness/sched.py deterministic scheduler + tools/harness/simdevice.py causal device + props/c19.py comparison"]
@@ -491,6 +610,11 @@ def run(tier, seed):
         translate.translate(PID)
     except Exception as e:
         ck.proof_broken("translator gen/c19.py", repr(e))
+    try:
+        from gen import c19 as gen_c19
+        closes_before_join = gen_c19.pool_timeout_order()[0]
+    except Exception:  # noqa: BLE001 — already reported by the translator step
+        closes_before_join = None
     ck.prove("ScrapliProps.C19", lemma_files=["ScrapliProps/C19Lemmas.lean", "ScrapliModel/Lock.lean"])
     if tier == "thorough":
         ck.leanchecker("ScrapliProps.C19")
@@ -543,6 +667,7 @@ def run(tier, seed):
                 ck.disagree(f"Lock model vs {case['stack']} channel", rec, d)
             else:
                 ck.traces_validated += 1
+    timed_family(ck, tier, closes_before_join)
     if unlocked_total and not unlocked_interleaved:
         raise HarnessError("with channel_lock off no schedule produced an interleaving: the rig cannot see what it is meant to exclude")
     ck.extra["unlocked_runs"] = unlocked_total
@@ -566,6 +691,15 @@ def run(tier, seed):
 def replay(path):
     r = json.load(open(path))
     v = (r.get("violation") or {}).get("case")
+    if v is not None and "timed" in v:
+        sc = v["timed"]
+        res = run_timed([sc])[0]
+        print("scenario", sc)
+        print("observed", json.dumps(res, indent=1))
+        bad = timed_oracle(sc, res)
+        for b in bad:
+            print("VIOLATED:", b)
+        return 1 if bad else 0
     if v is None:
         for b in r.get("no_longer_checks", []):
             if isinstance(b.get("case"), dict):
